@@ -1,6 +1,17 @@
 HOOK_COMMITS = ["9fc801b"]
+FIX_COMMITS = ["ff3b5f3", "ffa19d7", "9d7c7c0", "b2f9896"]
 NOT_APPLICABLE = {}
 TEXT = {
+    "C07": {
+        "level": "Kernel-checked theorems over a grammar of wire formats (Fmt): decode(encode v) = v, every accepted byte string re-encodes to itself (so no value has two encodings), trailing bytes / unreduced field elements / non-zero padding bits / unknown tags are rejected, and the encoded_len formulas are exact -- proved once for every format, then instantiated for every protocol message and every decoding parameter. The message formats are tied to the Rust decoders by a differential run on honest, mutated, truncated, extended, short and extreme byte strings.",
+        "note": "Trusted: Lean kernel, propext/Classical.choice/Quot.sound, the hand-written format functions (validated by the correspondence), the harness. serde encodings not covered.",
+        "technique": "Lean 4 proof (generic codec grammar) + differential correspondence on every message type",
+    },
+    "C08": {
+        "level": "Kernel-checked: the decoder is a total function by structural recursion on the format (terminates on every input), and no message format contains a reachable panic point for any decoding parameter or byte string (decode_total, all_formats_no_panic). The correspondence run compares outcome classes ok/err/panic of the real decoders with the model on arbitrary, truncated, extended, corrupted and extreme inputs; wall-clock, peak allocation (counting allocator) and a watchdog are measured on the real code.",
+        "note": "Trusted: as C07. Allocation proportionality and promptness are measured by the harness, not proved; the generic decode_u8/u16/u32_items helpers are exercised by the oracle only.",
+        "technique": "Lean 4 proof (totality, panic-freedom of every format) + differential correspondence + allocation/time oracle",
+    },
     "C09": {
         "level": "Kernel-checked theorems, for every word modulus R, modulus p and operand pair, that the translated add/sub/neg and both Montgomery multipliers (single-word; split-word under p + 2^(W/2) <= 2^W) compute arithmetic modulo p on the value map `residue`, that pow/montgomery/residue/byte conversions are the textbook maps, and decide+kernel checks of every constant (mu, R2, HALF, BIT_MASK, ROOTS chain and exact orders, G). The definitions are regenerated from src/fp/ops.rs and src/fp.rs on every run; the same generic Rust code is compared with them exhaustively at 8 bits and on a lattice+sample at 16/32/64/128 bits.",
         "note": "Trusted: Lean kernel, axioms propext/Classical.choice/Quot.sound, the translator's rewrite rules (listed in translator/rs2lean.py), the harness. Field255 (fiat-crypto limb code) and inv = x^(p-2) being the inverse (needs the primality certificates) are not yet covered by a theorem; they are compared by the correspondence/oracle only.",
